@@ -29,7 +29,7 @@ def createR (s : List Char) : CR :=
         match splitOnFirst ']' rest with
         | (body, some sfx) =>
           match parseRangeList body with
-          | .error _ => .fatal
+          | .error _ => .err          -- range parse errors are reported, not fatal: hostlist_create returns NULL
           | .ok rs => if sfx.isEmpty then .ok (rs.foldl (fun h r => pushSpec h pfx r) hl)
                       else .ok (rs.foldl (fun h r => pushSpecSuffix h pfx sfx r) hl)
         | (_, none) => .err
@@ -110,7 +110,9 @@ def finalReply (exprange : Bool) (c : CmdC) : Option Bytes :=
         pure (bstr "302 on:      " ++ on ++ crlf ++ bstr "302 off:     " ++ off ++ crlf ++ bstr "302 unknown: " ++ unk ++ crlf)
     body.map (· ++ (if c.error then bstr "211 Query completed with errors" else bstr "103 Query complete") ++ crlf)
   | .temp => do
-    let lines := entries.flatMap fun a => bstr "303 " ++ ofChars a.node ++ bstr ": " ++ (a.val.getD (bstr "(null)")) ++ crlf
+    let lines := entries.flatMap fun a => match a.val with
+      | some v => bstr "303 " ++ ofChars a.node ++ bstr ": " ++ v ++ crlf
+      | none => []
     let missing := (entries.filter (·.val.isNone)).map (·.node)
     let tail ← if missing.isEmpty then some [] else (sortedRanged missing).map fun r => bstr "303 " ++ r ++ bstr ": unknown" ++ crlf
     pure (lines ++ tail ++ (if c.error then bstr "211 Query completed with errors" else bstr "103 Query complete") ++ crlf)
@@ -239,13 +241,21 @@ def needsDev (d : Dev) (names : List Bytes) : Bool := d.plugs.any fun p => match
 def implemented (d : Dev) (com : Nat) : Bool :=
   let has (c : Nat) := (d.scripts c).isSome
   has com || ((allOf com).map has).getD false || ((rangedOf com).map has).getD false
+/-- `_command_handled_by_device`: a variant exists that `_enqueue_targeted_actions` can use for these targets
+    (the `_all` variant of a non-query script only when every plug of the device is targeted) -/
+def handles (d : Dev) (com : Nat) (names : List Bytes) : Bool :=
+  let has (c : Nat) := (d.scripts c).isSome
+  if has com || ((rangedOf com).map has).getD false then true
+  else if !(((allOf com).map has).getD false) then false
+  else if isQuery com then true
+  else d.plugs.all fun p => match p.node with | some n => names.contains n | none => false
 
 /-- `_create_command` (with `dev_check_actions`) + `dev_enqueue_actions` over the devices in configuration order -/
 def install (w : W) (c : Cli) (com : Com) (names : List Name) : W × Cli :=
   let al := w.alNext
   let bnames := names.map ofChars
   let no213 := (w, put c (codeLine 213 ++ crlf ++ (if c.quit then [] else prompt)))
-  if w.devs.any (fun (nd : Bytes × Dev) => needsDev nd.2 bnames && !implemented nd.2 (comIdx com)) then no213 else
+  if w.devs.any (fun (nd : Bytes × Dev) => needsDev nd.2 bnames && !handles nd.2 (comIdx com) bnames) then no213 else
   let distinct := bnames.foldl (fun acc x => if acc.contains x then acc else acc ++ [x]) []
   let args : List Arg := distinct.map fun n => { node := n, val := none, state := .unknown, result := .none }
   let (devs, total) := w.devs.foldl (fun (acc : List (Bytes × Dev) × Nat) (nd : Bytes × Dev) =>
